@@ -132,8 +132,8 @@ class C01(Prop):
 
     # ------------------------------------------------------------------ generation
     def gen(self, rng, tier):
-        n_lines = {'quick': 12, 'thorough': 200, 'search': 80}[tier]
-        n_fir = {'quick': 10, 'thorough': 160, 'search': 80}[tier]
+        n_lines = {'quick': 12, 'thorough': 120, 'search': 80}[tier]
+        n_fir = {'quick': 10, 'thorough': 100, 'search': 60}[tier]
         for k in range(n_lines):
             g = ScalarGen(rng, hazards=False)
             src = fir.emit_fortran(g.program(), wrap_program=False)
